@@ -30,6 +30,8 @@ import Mathlib.Data.List.Pairwise
        other outcomes: `C12_locate_panic` (front at/before the first link point),
        `C12_locate_beyond_end` (front beyond the path end: trailing dummy point, "link 0"),
        `C12_locate_never_err`; remarks `C12_locate_nonmonotone_ambiguous`, `C12_backward_step_panics`
+       (position update alone); positive: `C12_forward_step_ok`, `C12_ssStep_forward` (no backward motion,
+       hence no underflow, once both samples are checked non-negative — the repaired `solve_step`)
     4. `C12_ss_run`, `C12_ss_walk`, `C12_sl_run`   the same over whole runs (telescoped sums)
 -/
 set_option linter.unusedSectionVars false
@@ -140,7 +142,7 @@ theorem ssStep_kin {α : Type} [Field α] [LinearOrder α] [IsStrictOrderedRing 
     {con con' : Consist α} {s s' : TrainState α} {vPrev vCur tPrev tCur : α}
     (h : ssStep kc c g rho t res con s vPrev vCur tPrev tCur = .ok (con', res', s')) :
     SsKinStep c t.linkPoints s s' vPrev vCur tPrev tCur := by
-  obtain ⟨_, con₁, r₁, s₁, _, h2, h3, _, h5⟩ := ssStep_inv h
+  obtain ⟨_, _, con₁, r₁, s₁, _, h2, h3, _, h5⟩ := ssStep_inv h
   obtain ⟨f1, f2, f3, _, _⟩ := updateRes_frame h2
   exact ⟨con₁.state, r₁, s₁, f1, f2, f3, h3, h5⟩
 
@@ -483,7 +485,8 @@ example : (0 : ℚ) < 402 ∧ (∃ p ∈ Ex.lps, (402 : ℚ) ≤ p.off) ∧
     REMARK on reachability: `PathTpc::new` puts the first link point at offset 0 and `TrainState::new`
     puts the front at `max(init.offset, length)` with `length > 0` validated, so a run STARTS with
     `x > 0 = first.off`; the front can only come back to `≤ 0` by moving backwards
-    (`C12_backward_step_panics`). -/
+    (`C12_backward_step_panics`, position update alone), which whole accepted steps with
+    non-decreasing time stamps never do (`C12_ssStep_forward`). -/
 def C12_locate_panic_statement : Prop :=
   ∀ (α : Type) [Field α] [LinearOrder α] [IsStrictOrderedRing α]
     (lps : List (LinkPt α)) (s : TrainState α),
@@ -552,13 +555,80 @@ theorem C12_locate_nonmonotone_ambiguous :
   have := h 1 2 (by decide) (by decide) (by decide)
   norm_num [Ex.badLps] at this
 
-/-- REMARK / finding (with `C14_first_sample_unchecked`): an unchecked negative FIRST trace sample
-    moves the train backwards; if the front reaches the first link point the step PANICS
+/-- REMARK (kept, at the `ssIntegrate` level ONLY): the position update by itself moves the train
+    backwards on a negative previous sample, and if the front reaches the first link point it PANICS
     (`usize` underflow; a release build without overflow checks wraps and returns the dead `Err`).
-    `speed = [−1200, 0]`, `dt = 1`: mean −600 m/s, front 500 m → −100 m. -/
+    `speed = [−1200, 0]`, `dt = 1`: mean −600 m/s, front 500 m → −100 m.
+    Through a WHOLE `ssStep` this is no longer reachable: since the fix in /repo `solve_step` rejects a
+    negative previous sample (`C14_first_sample_rejected`), and with non-negative samples and a
+    non-negative step size the front never moves backwards (`C12_forward_step_ok`, `C12_ssStep_forward`). -/
 theorem C12_backward_step_panics :
     (0 : ℚ) ≤ 0 ∧ isPanic (ssIntegrate Ex.c Ex.lps Ex.s (-1200) 0 8) = true := by
   constructor <;> decide +kernel
+
+/-- **The position update cannot underflow on non-negative samples.**  Front beyond the first link
+    point, both samples non-negative, step size non-negative: `ssIntegrate` is accepted (no panic; the
+    `Err` branch is dead anyway) and the front does not move backwards. -/
+def C12_forward_step_ok_statement : Prop :=
+  ∀ (α : Type) [Field α] [LinearOrder α] [IsStrictOrderedRing α]
+    (c : TrConsts α) (lps : List (LinkPt α)) (s : TrainState α) (vPrev vCur tCur : α)
+    (h0 : 0 < lps.length),
+    c.half = 1 / 2 →                -- forced: the literal 0.5
+    lps[0].off < s.r.offset →       -- forced: `C12_locate_panic`
+    0 ≤ vPrev →                     -- forced: `C12_backward_step_panics`
+    0 ≤ vCur →                      -- forced (same example with the samples swapped)
+    0 ≤ s.k.dt →                    -- forced: a negative step size with positive speeds moves backwards too
+    ∃ s', ssIntegrate c lps s vPrev vCur tCur = .ok s' ∧ s.r.offset ≤ s'.r.offset
+
+theorem C12_forward_step_ok : C12_forward_step_ok_statement := by
+  intro α _ _ _ c lps s vPrev vCur tCur h0 hhalf hfirst hp hc hdt
+  have hmove : s.r.offset ≤ (ssMoved c s vPrev vCur tCur).r.offset := by
+    show s.r.offset ≤ s.r.offset + c.half * (vCur + vPrev) * s.k.dt
+    have : 0 ≤ c.half * (vCur + vPrev) * s.k.dt := by
+      rw [hhalf]; exact mul_nonneg (mul_nonneg (by norm_num) (add_nonneg hc hp)) hdt
+    linarith
+  have hroff : ∀ s₂ lp, s₂ = located (ssMoved c s vPrev vCur tCur) lp →
+      ∀ s', s' = ({ s₂ with k := { s₂.k with
+          totalDist := s₂.k.totalDist + |c.half * (vCur + vPrev) * s₂.k.dt| } } : TrainState α) →
+      s.r.offset ≤ s'.r.offset := by
+    rintro _ lp rfl _ rfl; exact hmove
+  rcases setLinkAndOffset_cases lps (ssMoved c s vPrev vCur tCur) with
+    ⟨_, hle⟩ | ⟨n, hn, hok, _, _⟩ | ⟨hne, hok, _⟩
+  · exact absurd (lt_of_lt_of_le hfirst hmove) (not_lt.mpr (hle h0))
+  · exact ⟨_, ssIntegrate_iff.mpr ⟨_, hok, rfl⟩, hroff _ _ rfl _ rfl⟩
+  · exact ⟨_, ssIntegrate_iff.mpr ⟨_, hok, rfl⟩, hroff _ _ rfl _ rfl⟩
+
+/-- non-vacuity (the example of section 1) -/
+example : ∃ h0 : 0 < Ex.lps.length, Ex.c.half = 1 / 2 ∧ Ex.lps[0].off < Ex.s.r.offset ∧
+    (0 : ℚ) ≤ 10 ∧ (0 : ℚ) ≤ 12 ∧ 0 ≤ Ex.s.k.dt :=
+  ⟨by decide, by decide +kernel, by decide +kernel, by norm_num, by norm_num, by decide +kernel⟩
+
+/-- **A whole accepted `ssStep` never moves the front backwards** when the time stamps do not decrease
+    (both samples are `≥ 0` by the two `ensure!`s of the repaired `solve_step`). -/
+def C12_ssStep_forward_statement : Prop :=
+  ∀ (α : Type) [Field α] [LinearOrder α] [IsStrictOrderedRing α]
+    (kc : Consts α) (c : TrConsts α) (g rho : α) (t : Tpc α) (res res' : ResStrap α)
+    (con con' : Consist α) (s s' : TrainState α) (vPrev vCur tPrev tCur : α),
+    c.half = 1 / 2 →      -- forced: the literal 0.5
+    -- forced: the time trace is not validated to be increasing (only `FuelConverter::
+    -- set_cur_pwr_out_max` insists on `dt > 0`, so a consist with a diesel unit checks it indirectly)
+    tPrev ≤ tCur →
+    ssStep kc c g rho t res con s vPrev vCur tPrev tCur = .ok (con', res', s') →
+      s.r.offset ≤ s'.r.offset ∧ s'.k.totalDist = s.k.totalDist + (s'.r.offset - s.r.offset)
+
+theorem C12_ssStep_forward : C12_ssStep_forward_statement := by
+  intro α _ _ _ kc c g rho t res res' con con' s s' vPrev vCur tPrev tCur hhalf ht h
+  obtain ⟨hc, hp, _⟩ := ssStep_inv h
+  obtain ⟨_, _, _, _, h5, _, _, h8⟩ :=
+    C12_ssStep α kc c g rho t res res' con con' s s' vPrev vCur tPrev tCur hhalf h
+  have hΔ : 0 ≤ s'.r.offset - s.r.offset := by
+    rw [h5]; exact mul_nonneg (sub_nonneg.mpr ht) (div_nonneg (add_nonneg hp hc) (by norm_num))
+  exact ⟨by linarith, by rw [h8, abs_of_nonneg hΔ]⟩
+
+example : ExW.c.half = 1 / 2 ∧ (0 : ℚ) ≤ 1 ∧
+    ∃ con' res' s', ssStep ExW.kc ExW.c ExW.g ExW.rho ExW.tpc ExW.strap ExW.con ExW.s 1 2 0 1
+      = .ok (con', res', s') :=
+  ⟨by decide +kernel, by norm_num, ExW.step_ok'⟩
 
 /-- the located front after the position update of the two simulations -/
 def C12_step_located_statement : Prop :=
@@ -621,16 +691,6 @@ inductive SlRun (c : TrConsts α) (lps : List (LinkPt α)) :
       slRequiredPwr c sqrt fmc cs fb bp { s with r := r₁ } = .ok (fb', bp', s₁) →
       setLinkAndOffset lps s₁ = .ok s₂ →
       SlRun c lps s₂ ds s' → SlRun c lps s ((s₂.r.offset - s.r.offset) :: ds) s'
-
-/-- `SetSpeedTrainSim::walk` as a fold of the model's `ssStep` over the trace samples after `p`
-    (the Rust loop runs `i = 1 .. len`, step `i` reads samples `i-1` and `i`) -/
-def ssWalk (kc : Consts α) (c : TrConsts α) (g rho : α) (t : Tpc α) :
-    ResStrap α × Consist α × TrainState α → α × α → List (α × α) →
-      Res (ResStrap α × Consist α × TrainState α)
-  | st, _, [] => .ok st
-  | (res, con, s), p, q :: tr =>
-    (ssStep kc c g rho t res con s p.2 q.2 p.1 q.1).bind fun x =>
-      ssWalk kc c g rho t (x.2.1, x.1, x.2.2) q tr
 
 theorem ssWalk_run {kc : Consts α} {c : TrConsts α} {g rho : α} {t : Tpc α} :
     ∀ (tr : List (α × α)) (p : α × α) (res res' : ResStrap α) (con con' : Consist α)
